@@ -410,7 +410,7 @@ func (m *ScriptEVM) ApplyMessage(ctx sdk.Context, msg core.Message, tracer vm.EV
 			who, amt = from, adj(args[0].(*big.Int))
 		}
 		b := m.Bal(ctx, c, who)
-		if who == zero || b.Cmp(amt) < 0 || amt.Sign() < 0 {
+		if who == zero || b.Cmp(amt) < 0 || amt.Sign() < 0 || m.Sup(ctx, c).Cmp(amt) < 0 {
 			return m.answer(kind, reverted(), nil)
 		}
 		if dev != "noop" && commit {
@@ -485,7 +485,7 @@ func (m *ScriptEVM) HolderCall(ctx sdk.Context, c, holder common.Address, call s
 		m.setBal(ctx, c, to, new(big.Int).Add(m.Bal(ctx, c, to), amt))
 		return mk(holder, to), false
 	case "burn":
-		if b.Cmp(amt) < 0 {
+		if b.Cmp(amt) < 0 || m.Sup(ctx, c).Cmp(amt) < 0 {
 			return nil, true
 		}
 		m.setBal(ctx, c, holder, new(big.Int).Sub(b, amt))
